@@ -156,7 +156,9 @@ def run_ops(ctx, desc, cumsum):
         t = lacking[pick % len(lacking)]
         kw2["to"] = t if len(opax) == 1 else {x: (t if x == a else to_eff[x]) for x in opax}
     elif edit == "to-unknown-word":
-        t = ["middle", "centre", "Center", "lef", ""][pick % 5]
+        # unknown words include mis-spellings of the very position the call would otherwise move to (blanks inside or around it)
+        w = to_eff[a]
+        t = ["middle", "centre", "Center", "lef", "", w[:2] + " " + w[2:], " " + w, w + " "][pick % 8]
         kw2["to"] = t if len(opax) == 1 else {x: (t if x == a else to_eff[x]) for x in opax}
     elif edit == "boundary-unknown-scalar":
         kw2["boundary"] = ["bogus", "wrap", "Fill", "constant", "edge"][pick % 5]
